@@ -90,6 +90,13 @@ def run(ctx: Ctx) -> int:
             cases.append(c)
             q = f"ds.SelectMany(lambda e: e.{C}('A')).Select(lambda j: ({', '.join('j.pt() * 0 + ' + t for t, v in sel if not isinstance(v, bool))}, j.pt()))"
             cases.append(diff.Case(backend, q, evs0, diff.members_used(s, q), tag={"pos": "equal_constants_arith", "kind": "mixed", "value": repr([t for t, _ in sel])}))
+        # ---- negative constants that arrive as constant nodes, in the operator positions where the sign matters
+        for k, (txt, q) in enumerate([
+                ("NEGONE", f"ds.SelectMany(lambda e: e.{C}('A')).Select(lambda j: (j.pt() - NEGONE, j.pt() + NEGONE, j.pt() * NEGHALF, j.pt() / NEGHALF, NEGONE - j.pt(), -NEGONE, NEGBIG))"),
+                ("NEGHALF", f"ds.SelectMany(lambda e: e.{C}('A')).Select(lambda j: (j.pt() > NEGHALF, j.pt() - NEGHALF - NEGHALF, 2 ** NEGONE, (j.pt() if j.pt() > NEGONE else NEGHALF)))"),
+                ("NEGHALF", f"ds.SelectMany(lambda e: e.{C}('A')).Select(lambda j: (DeltaR(j.eta(), j.phi(), NEGHALF, NEGHALF), DeltaR(NEGHALF, NEGONE, j.eta(), j.phi()), abs(NEGHALF) + sqrt(abs(NEGONE))))"),
+                ("NEGONE", f"ds.Select(lambda e: (e.{C}('A').Select(lambda j: j.pt() - NEGONE), e.{C}('A').Where(lambda j: j.pt() > NEGHALF).Count(), NEGONE))")]):
+            cases.append(diff.Case(backend, q, evs0, diff.members_used(s, q), tag={"pos": "negative_constant_node", "kind": "mixed", "value": txt + f"#{k}"}))
         # ---- strings
         strs = STRINGS if not ctx.quick else STRINGS
         for sv in strs:
@@ -98,6 +105,9 @@ def run(ctx: Ctx) -> int:
             evs = [dict(banks=[dict(b, bank=sv) if (b["coll"] == C and b["bank"] == "A") else b for b in ev["banks"]]) for ev in evs0]
             q = f"ds.Select(lambda e: e.{C}({lit}).Count())"
             cases.append(diff.Case(backend, q, evs, diff.members_used(s, q), tag={"pos": "bank_name", "kind": "str", "value": sv}))
+            # the same bank name in a query that ends in First(): its text is quoted inside the job's error message
+            q = f"ds.Where(lambda e: e.{C}({lit}).Count() > 0).Select(lambda e: e.{C}({lit}).Select(lambda j: j.pt()).First())"
+            cases.append(diff.Case(backend, q, evs, diff.members_used(s, q), tag={"pos": "bank_name_under_first", "kind": "str", "value": sv}))
             # echoing injected function
             md = [{"metadata_type": "add_cpp_function", "name": "EchoStr", "include_files": [], "arguments": ["s"], "code": ["auto result = mon_echo_str(s);"], "return_type": "int"}]
             q = f"ds.Select(lambda e: EchoStr({lit}))"
@@ -226,7 +236,7 @@ def check_received(c: diff.Case, r: Dict[str, Any]) -> Optional[str]:
             return f"constant of kind {want} booked as {br['type']}"
         return None
     sv = t["value"]
-    if t["pos"] == "bank_name":
+    if t["pos"] in ("bank_name", "bank_name_under_first"):
         recs = [x for ev in run["events"].values() for x in ev["retrieves"]]
         if not recs:
             return "no retrieve was observed"
